@@ -8,7 +8,7 @@
    64 KiB first read and the exact-size second read of reader.go. *)
 From RW Require Import Base.Bytes Fmt.Frame Seg.Writer Seg.Recover Seg.Reader Seg.SegAbs
      Seg.WriterFacts Seg.ReaderFacts Gen.Constants.
-From RW Require Import Fmt.Codec Wal.Model Wal.TooBigFacts.
+From RW Require Fmt.Codec Wal.Model Wal.TooBigFacts.
 Open Scope N_scope.
 
 (* every entry of every acknowledged batch is returned by the tail reader: any
@@ -71,9 +71,9 @@ Print Assumptions C15_up_to_max_accepted.
    part of the sequential refinement for batches within the guards.) *)
 Theorem C15_wal_too_big_refused :
   forall c w ls e,
-    existsb (fun l => MaxEntrySize <? enc_len l) ls = true ->
-    fst (fst (store_logs c w ls e)) <> ROk.
-Proof. exact store_logs_too_big. Qed.
+    existsb (fun l => MaxEntrySize <? Codec.enc_len l) ls = true ->
+    fst (fst (Model.store_logs c w ls e)) <> Model.ROk.
+Proof. exact TooBigFacts.store_logs_too_big. Qed.
 Print Assumptions C15_wal_too_big_refused.
 
 (* non-vacuity: an entry larger than the whole segment (limit 64) in the middle
